@@ -20,10 +20,11 @@ func VerifC17_LiveLockIsNeverStale() {
 	ctx := context.Background()
 	verif.Assert("acquire", A.tryLock(ctx) == nil)
 	observations := 3
-	if verif.Tier() > 0 {
-		observations = 5
-	}
 	steps := []time.Duration{0, time.Millisecond, 49 * time.Millisecond, 50 * time.Millisecond, 51 * time.Millisecond, 99 * time.Millisecond, 101 * time.Millisecond, 333 * time.Millisecond}
+	if verif.Tier() > 0 {
+		// longer holds rather than more observations (24^4 schedules of observations is already 330k paths)
+		steps = append(steps, time.Second, 2500*time.Millisecond, 7*time.Second)
+	}
 	n := verif.Len("observations", 1, observations)
 	for k := 0; k < n; k++ {
 		verif.Advance(steps[verif.Choice("wait", len(steps))])
